@@ -190,8 +190,10 @@ def check_program(item):
                 if status == "timeout":
                     res["confirmed"] += 1
                     res["problems"].append(dict(kind="c-hang", what="the C binary does not return on some input of length <= 4 over %r although the machine shows no divergence (code generation)" % (hreps,), input="", state=-1, ctx={}))
-                elif status == "ok" and recs and recs[0][1].get("invariant_hits"):
-                    pass
+                elif status == "ok" and recs and recs[0][1].get("livelocks"):
+                    res["confirmed"] += 1
+                    res["problems"].append(dict(kind="c-yield-forever", what="the C binary keeps returning yield codes without getting through the input (feed: more than 4n+8 yields in a chunk of n bytes; end: more than 12 in a row) "
+                                                "on %d schedule(s) of inputs of length <= 4 over %r although the machine shows no divergence (code generation)" % (recs[0][1]["livelocks"], hreps), input="", state=-1, ctx={}))
         except cbuild.BuildError:
             pass
     # converse: REF non-consuming cycles in an accepted program
